@@ -37,6 +37,13 @@ type obs struct {
 	waitErr   error
 	done      bool
 	note      string
+	seen      []seenObs
+}
+
+// seenObs is what a reader saw after it had observed the done signal.
+type seenObs struct {
+	errs   int
+	errNil bool
 }
 
 var focus = []string{"app/scope", "checks/c12"}
@@ -91,6 +98,12 @@ func build(sp Spec, o *obs) func() {
 						o.readErrs = append(o.readErrs, append([]error{}, cs.Errors()...))
 					case "err()":
 						cs.Err()
+					case "seen":
+						// a reader that has observed the done signal looks at the error accessors
+						if cs.IsDone() {
+							n := len(cs.Errors())
+							o.seen = append(o.seen, seenObs{n, cs.Err() == nil})
+						}
 					case "newchild-close":
 						// the termexec pattern: a command scope created on a scope that may just have ended
 						ch := scope.NewChild(parent, scope.ChildParams{Name: "cmd"})
@@ -147,6 +160,16 @@ func judge(sp Spec, o *obs) func(x *explore.Exec) *explore.Verdict {
 				}
 			}
 		}
+		if o.stops == 0 && !hasOp(sp, "stop") {
+			// the scope can only have ended through an error: whoever saw the done signal must be
+			// shown that error by the accessors
+			for _, so := range o.seen {
+				if so.errs == 0 || so.errNil {
+					return &explore.Verdict{Kind: "done-without-error", Clause: "every appended error is retained and reported by the scope's error accessors",
+						Detail: fmt.Sprintf("a reader observed the done signal of a scope that was only ever failed (never stopped) and then read len(Errors())=%d, Err()==nil: %v", so.errs, so.errNil)}
+				}
+			}
+		}
 		mustBeDone := want > 0 || o.stops > 0
 		if o.isDone != mustBeDone {
 			return &explore.Verdict{Kind: "done-signal-wrong", Clause: "the done signal fires (exactly once) when the scope is killed, stopped or receives an error",
@@ -160,6 +183,17 @@ func judge(sp Spec, o *obs) func(x *explore.Exec) *explore.Verdict {
 		}
 		return nil
 	}
+}
+
+func hasOp(sp Spec, op string) bool {
+	for _, t := range sp.Threads {
+		for _, x := range t {
+			if x == op {
+				return true
+			}
+		}
+	}
+	return false
 }
 
 func programs(thorough bool) []Spec {
@@ -184,6 +218,13 @@ func programs(thorough bool) []Spec {
 			Spec{k, [][]string{{"err2", "stop"}, {"stop", "err"}}, b2},
 			Spec{k, [][]string{{"kill", "errors"}, {"err", "err()"}}, b2},
 			Spec{k, [][]string{{"stop", "stop"}, {"stop", "isdone"}}, b2},
+		)
+		// readers that act on the done signal
+		ps = append(ps,
+			Spec{k, [][]string{{"err"}, {"seen", "seen"}}, b2},
+			Spec{k, [][]string{{"kill"}, {"seen", "seen"}}, b2},
+			Spec{k, [][]string{{"err2"}, {"seen"}, {"seen"}}, b3},
+			Spec{k, [][]string{{"err"}, {"kill"}, {"seen"}}, b3},
 		)
 		// three threads
 		ps = append(ps,
@@ -257,7 +298,7 @@ var _ = errors.New
 
 func init() {
 	fw.Register(&fw.Check{ID: "C12", Level: "model_checking",
-		Rule: "programs = scope kind {plain context scope, isolated, full scope, child sharing the parent's context} x thread programs (all pairs of single operations from {AppendError, Kill, Stop, IsDone, Errors}; curated 2x2; 3x1) plus child creation/closing after and racing with the parent's end; every schedule of the real code with <= bound preemptions (2 threads: 3 quick / 4 thorough; 3 threads: 2 / 3) is executed; oracle: no panic (a double close of the done channel or a negative wait-group counter panics), error count and identity, done signal, Wait/Close report, no deadlock, and the happens-before race oracle on the scope packages' multi-word fields. states = distinct schedule traces",
+		Rule: "programs = scope kind {plain context scope, isolated, full scope, child sharing the parent's context} x thread programs (all pairs of single operations from {AppendError, Kill, Stop, IsDone, Errors}; curated 2x2; 3x1; readers that look at Errors/Err after having observed the done signal) plus child creation/closing after and racing with the parent's end; every schedule of the real code with <= bound preemptions (2 threads: 3 quick / 4 thorough; 3 threads: 2 / 3) is executed; oracle: no panic (a double close of the done channel or a negative wait-group counter panics), error count and identity, done signal, a reader that saw the done signal of a never-stopped scope sees its error, Wait/Close report, no deadlock, and the happens-before race oracle on the scope packages' multi-word fields. states = distinct schedule traces",
 		Run: run, Replay: replay,
 		Assumptions: []string{"2-3 concurrent callers; preemption bounds as reported", "word-sized fields (e.g. the closed flag) are outside the race oracle"}})
 }
